@@ -287,6 +287,17 @@ def one_case(sh, fa, rng, case, tier):
             if st == "ok" and what == "union":
                 sh.violation("bad-index-accepted-skip", "union index %d (of %d) in a skipped field returned %s" % (bad, n, printable(got, 200)), info)
                 return
+            # the same inside a skipped collection whose only block announces its byte size
+            for how in ("array", "map"):
+                ws, rs = wrap_schema(js, how)
+                entry = (RB.enc_bytes(b"k") if how == "map" else b"") + mutated
+                blob = RB.enc_long(-1) + RB.enc_long(len(entry)) + entry + b"\x00" + b"\x02"
+                st, got = guard_timed(3.0, read_skip, fa, ws, rs, blob)
+                sh.count("bad_%s_skip_sized_block" % what)
+                if st == "ok" and what == "union":
+                    sh.violation("bad-index-accepted-skip", "union index %d (of %d) in a skipped %s block announced with its byte size returned %s"
+                                 % (bad, n, how, printable(got, 200)), dict(info, how=how))
+                    return
     # ---- every proper prefix
     leaves = []
     leaf_map(tree, leaves)
